@@ -137,15 +137,17 @@ theorem lookupRef_rem (pipe : Callable) (self : Env) (sib : String → RExp) (r 
       rw [envGet_dropKey_other q r.id self this]
   · rfl
 
-theorem remove_input_graph (ti : TypeInfo) (p : Program) (hok : RemInOK x q p = true) :
-    deepGraph (ti.removeInput x q) (removeInputOne x q p) = (deepGraph ti p).map (remNodeIn x q) := by
+theorem remove_input_graph_both (ti : TypeInfo) (p : Program) (hok : RemInOK x q p = true) :
+    deepGraph (ti.removeInput x q) (removeInputOne x q p) = (deepGraph ti p).map (remNodeIn x q)
+    ∧ ∀ big fuel, deepGraphAt big fuel (ti.removeInput x q) (removeInputOne x q p)
+        = (deepGraphAt big fuel ti p).map (remNodeIn x q) := by
   simp only [RemInOK, Bool.and_eq_true, bne_iff_ne, ne_eq, List.all_eq_true] at hok
   obtain ⟨⟨hx, hall⟩, htopok⟩ := hok
   have hmo : membersOf (ti.removeInput x q) = membersOf ti := rfl
   have hp' := removeInputOne_eq x q p
   have H : SimHyp ti (ti.removeInput x q) p (removeInputOne x q p) id (FRem x q) (fun _ k => dropB x q k)
       (SRem x q) (fun _ _ v => v) id (fun c => pipeOKRem x q c = true) (fun _ _ => True)
-      (fun _ _ => True) (fun _ => True) := by
+      (fun _ _ => True) (fun _ => True) (fun _ _ => true) := by
     refine { hfind1 := ?_, hfind0 := ?_, hrel := fun _ _ _ _ => trivial, hF := ?_, hcalls := ?_,
              hGid := ?_, hGdec := ?_, hfirst := ?_, hO0 := ?_, hOs := ?_, o0 := ?_, o0s := ?_,
              o1 := ?_, o2 := ?_, c5 := ?_, c6 := ?_, c7 := ?_ }
@@ -164,6 +166,7 @@ theorem remove_input_graph (ti : TypeInfo) (p : Program) (hok : RemInOK x q p = 
       exact ⟨rfl, rfl, rfl, rfl⟩
     · intro pipe hg
       have hparts := pipeOKRem_parts x q hg
+      rw [show (pipe.calls.filter (fun k => (fun (_ : Callable) (_ : String) => true) pipe k.id)) = pipe.calls from filter_true' _]
       unfold FRem
       cases hparts.1 with
       | inl h => simp [h]
@@ -179,7 +182,9 @@ theorem remove_input_graph (ti : TypeInfo) (p : Program) (hok : RemInOK x q p = 
     · intros; trivial
     · intros; trivial
     · -- c5
-      intro pipe self sib k d id hg _ _ hk hd
+      intro pipe self sib sib' k d id hg _ _ hag _ hk hd
+      have hs' := sibAgree_true hag
+      subst hs'
       have hparts := pipeOKRem_parts x q hg
       have hkm := (call_mem pipe id k hk).1
       have hdname := find_name p _ d hd
@@ -213,7 +218,9 @@ theorem remove_input_graph (ti : TypeInfo) (p : Program) (hok : RemInOK x q p = 
         rw [this, resolveBinds_congr _ _ _ (lookupRef self sib) _ hper]
         simp [SRem, hdn]
     · -- c6
-      intro d ins sib hg hp _ _
+      intro d ins sib sib' hg hp _ _ hag
+      have hs' := sibAgree_true hag
+      subst hs'
       have hparts := pipeOKRem_parts x q hg
       have hOsib : Osib p (fun _ _ v => v) d sib = sib := by funext i; rfl
       have hret : (FRem x q d).ret = d.ret := rfl
@@ -229,7 +236,9 @@ theorem remove_input_graph (ti : TypeInfo) (p : Program) (hok : RemInOK x q p = 
       exact lookupRef_rem x q d ins sib r
         (fun hn => hparts.2.2.2.2.1 hn r (mem_graphRefs_ret d bd hbd r hr))
     · -- c7
-      intro d ins sib hg hp _ _
+      intro d ins sib sib' hg hp _ _ hag
+      have hs' := sibAgree_true hag
+      subst hs'
       have hparts := pipeOKRem_parts x q hg
       have hOsib : Osib p (fun _ _ v => v) d sib = sib := by funext i; rfl
       have hret : (FRem x q d).retain = d.retain := rfl
@@ -243,22 +252,42 @@ theorem remove_input_graph (ti : TypeInfo) (p : Program) (hok : RemInOK x q p = 
     funext n
     simp only [nodeMap, remNodeIn, SRem, id, List.map_id]
     split <;> rfl
-  rw [← hmap]
-  apply sim_graph H
-  · intro t ht
-    have htop := by simpa [ht] using htopok
-    refine ⟨?_, ?_, htop, trivial⟩
-    · rw [hp']; simp [ht]
-    · simp [FRem, topPipe, Ne.symm hx]
-  · intro ht; rw [hp']; simp [ht]
-  · simp [SRem, Ne.symm hx]
-  · rw [hp']
-    simp only [graphFuel, List.map_map]
-    congr 2
-    apply List.map_congr_left
-    intro c _
-    simp only [Function.comp, FRem]
-    split <;> simp
+  refine ⟨?_, ?_⟩
+  · rw [← deepGraphKeep_true ti p, ← hmap]
+    apply sim_graph H
+    · intro t ht
+      have htop := by simpa [ht] using htopok
+      refine ⟨?_, ?_, htop, trivial, rfl⟩
+      · rw [hp']; simp [ht]
+      · simp [FRem, topPipe, Ne.symm hx]
+    · intro ht; rw [hp']; simp [ht]
+    · simp [SRem, Ne.symm hx]
+    · rw [hp']
+      simp only [graphFuel, List.map_map]
+      congr 2
+      apply List.map_congr_left
+      intro c _
+      simp only [Function.comp, FRem]
+      split <;> simp
+  · intro big fuel
+    unfold deepGraphAt
+    cases ht : p.top with
+    | none =>
+      have htop' : (removeInputOne x q p).top = none := by rw [hp']; simp [ht]
+      simp [htop']
+    | some t =>
+      have htop : pipeOKRem x q (topPipe t) = true := by simpa [ht] using htopok
+      have hFt : FRem x q (topPipe t) = topPipe (dropB x q t) := by simp [FRem, topPipe, Ne.symm hx]
+      have := sim_graph_at H big fuel t htop trivial rfl hFt (by simp [SRem, Ne.symm hx])
+      have htop' : (removeInputOne x q p).top = some (dropB x q t) := by rw [hp']; simp [ht]
+      simp only [htop']
+      rw [this, hmap]
+      congr 1
+      exact nodesOfKeep_true ti p big fuel _ _ _ _
+
+theorem remove_input_graph (ti : TypeInfo) (p : Program) (hok : RemInOK x q p = true) :
+    deepGraph (ti.removeInput x q) (removeInputOne x q p) = (deepGraph ti p).map (remNodeIn x q) :=
+  (remove_input_graph_both x q ti p hok).1
 
 end Rem
 
@@ -277,5 +306,19 @@ theorem remove_inputs_graph (pairs : List (String × String)) (ti : TypeInfo) (p
     have := ih (ti.removeInput x q) (removeInputOne x q p) hok.2
     simp only [removeInputs, TypeInfo.removeInputs] at this
     rw [this, remove_input_graph x q ti p hok.1]
+
+theorem remove_inputs_graph_at (pairs : List (String × String)) (ti : TypeInfo) (p : Program)
+    (hok : RemInsOK pairs p = true) (big fuel : Nat) :
+    deepGraphAt big fuel (ti.removeInputs pairs) (removeInputs pairs p)
+      = pairs.foldl (fun g xq => g.map (remNodeIn xq.1 xq.2)) (deepGraphAt big fuel ti p) := by
+  induction pairs generalizing ti p with
+  | nil => rfl
+  | cons xq rest ih =>
+    obtain ⟨x, q⟩ := xq
+    simp only [RemInsOK, Bool.and_eq_true] at hok
+    simp only [removeInputs, TypeInfo.removeInputs, List.foldl_cons]
+    have := ih (ti.removeInput x q) (removeInputOne x q p) hok.2
+    simp only [removeInputs, TypeInfo.removeInputs] at this
+    rw [this, (remove_input_graph_both x q ti p hok.1).2 big fuel]
 
 end Proofs.RefactorGraph
